@@ -247,9 +247,9 @@ func sample[T any](rng *rand.Rand, xs []T, n int) []T {
 // ---------- families ----------
 
 func generate(family string, rng *rand.Rand, thorough bool) []plan {
-	mul := 1
+	mul := 4
 	if thorough {
-		mul = 12
+		mul = 40
 	}
 	var ps []plan
 	add := func(p plan) { ps = append(ps, p) }
